@@ -1,10 +1,12 @@
 ------------------------------ MODULE BTreeZone ------------------------------
 (* Property C20: in a B-tree zone (dns.btreezone.Zone) the node flags, the delegation
    index, the iteration order and the answers of bounds() are a FUNCTION OF THE ZONE
-   CONTENT ALONE.  This module defines that function from the documentation
-   (NodeFlags / Bounds / ImmutableVersion.bounds docstrings, RFC 4034 section 6.1 for the
-   order, RFC 1034 4.2.1 / RFC 4035 2.2 for zone cuts and occluded names) -- it does not
-   describe how the implementation maintains anything incrementally.
+   CONTENT ALONE.  That function is defined in module BTZDerived (from the NodeFlags /
+   Bounds / ImmutableVersion.bounds docstrings and RFC 1034 4.2.1 / RFC 4035 2.2 for zone
+   cuts and occluded names) over an abstract name structure; this module supplies the
+   names and their canonical order (RFC 4034 section 6.1), the zone content and the
+   transaction histories.  Nothing here describes how the implementation maintains the
+   derived state incrementally.
 
    A NAME is a sequence of labels, left-most label first, written relative to the zone
    origin: <<>> is the apex, <<y, x, d>> is y.x.d.<origin>.  A LABEL is a non-empty
@@ -34,40 +36,46 @@ vars == <<content, working, mode, nops, ntxn>>
 -----------------------------------------------------------------------------
 (* Names and the canonical order, RFC 4034 section 6.1 *)
 Apex == <<>>
-Min2(a, b) == IF a < b THEN a ELSE b
-MaxOf(S) == CHOOSE x \in S : \A y \in S : y <= x
+
+(* Mat is the identity on sequences; it makes TLC materialise a lazily represented
+   [i \in 1..n |-> e] once instead of re-evaluating e at every use *)
+Mat(s) == SubSeq(s, 1, Len(s))
+Lesser(a, b) == IF a < b THEN a ELSE b
 
 LowerOctet(o) == IF o \in 65..90 THEN o + 32 ELSE o
-CanonLabel(lb) == [j \in 1..Len(lb) |-> LowerOctet(lb[j])]
-Canon(n) == [i \in 1..Len(n) |-> CanonLabel(n[i])]
+CanonLabel(lb) == Mat([j \in 1..Len(lb) |-> LowerOctet(lb[j])])
+Canon(n) == Mat([i \in 1..Len(n) |-> CanonLabel(n[i])])
 
 (* lexicographic order on sequences: the first difference decides, a proper prefix sorts
    first ("absent octets sort before a zero octet", "a name sorts before its descendants") *)
 LexLess(a, b, lt(_, _)) ==
-    \E k \in 1..(Min2(Len(a), Len(b)) + 1) :
+    \E k \in 1..(Lesser(Len(a), Len(b)) + 1) :
         /\ \A i \in 1..(k - 1) : a[i] = b[i]
         /\ IF k > Len(a) THEN k <= Len(b)
            ELSE k <= Len(b) /\ lt(a[k], b[k])
 IntLess(x, y) == x < y
-(* labels: as left-justified unsigned octet strings, upper case US-ASCII as lower case *)
-LabelLess(a, b) == LexLess(CanonLabel(a), CanonLabel(b), IntLess)
-Rev(s) == [i \in 1..Len(s) |-> s[Len(s) + 1 - i]]
-(* names: by their most significant (right-most) labels first *)
-NameLess(m, n) == LexLess(Rev(Canon(m)), Rev(Canon(n)), LabelLess)
+Rev(s) == Mat([i \in 1..Len(s) |-> s[Len(s) + 1 - i]])
+(* on canonical forms: labels compare as left-justified unsigned octet strings; names
+   compare by their most significant (right-most) labels first *)
+LabelLessC(a, b) == LexLess(a, b, IntLess)
+NameLessDef(m, n) == LexLess(Rev(m), Rev(n), LabelLessC)
+(* Everything below uses NameLessC.  TLC configurations may override it with a table of
+   NameLessDef precomputed over a finite universe (BTZNames!TabLess; TLC checks that the
+   table agrees with NameLessDef) -- interpreting LexLess for every comparison is slow. *)
+NameLessC(m, n) == NameLessDef(m, n)
+(* on arbitrary spellings: upper case US-ASCII letters are treated as lower case *)
+NameLess(m, n) == NameLessC(Canon(m), Canon(n))
 NameLeq(m, n) == Canon(m) = Canon(n) \/ NameLess(m, n)
 
 (* ancestry; arguments in canonical form *)
 Suffix(n, k) == SubSeq(n, Len(n) - k + 1, Len(n))          \* the ancestor of n with k labels
-AtOrBelow(n, m) == Len(n) >= Len(m) /\ Suffix(n, Len(m)) = m
 StrictlyBelow(n, m) == Len(n) > Len(m) /\ Suffix(n, Len(m)) = m
-Common(a, b) == MaxOf({k \in 0..Min2(Len(a), Len(b)) : Suffix(a, k) = Suffix(b, k)})
 
 -----------------------------------------------------------------------------
 (* Content *)
 EmptyContent == <<>>
 ContentOf(R) == [key \in {<<r[1], r[2]>> : r \in R} |->
                     {r[3] : r \in {x \in R : x[1] = key[1] /\ x[2] = key[2]}}]
-Nodes(c) == {key[1] : key \in DOMAIN c}                    \* owners of at least one rdataset
 HasApex(c) == <<Apex, "SOA">> \in DOMAIN c
 
 PutC(w, n, ty, S) == [key \in DOMAIN w \cup {<<n, ty>>} |-> IF key = <<n, ty>> THEN S ELSE w[key]]
@@ -80,42 +88,12 @@ DelRdC(w, n, ty, k) ==
 DelNodeC(w, n) == [key \in {x \in DOMAIN w : x[1] # n} |-> w[key]]
 
 -----------------------------------------------------------------------------
-(* THE DERIVED STATE, defined from content alone *)
-
-(* owners of an NS rdataset other than the apex *)
-NSOwners(c) == {n \in Nodes(c) : n # Apex /\ <<n, "NS">> \in DOMAIN c}
-(* zone cuts = delegation points: NS owners that are not beneath another NS owner *)
-Cuts(c) == {n \in NSOwners(c) : ~\E m \in NSOwners(c) : StrictlyBelow(n, m)}
-Delegations(c) == Cuts(c)
-(* glue / occluded names: strictly beneath a delegation point *)
-GlueIn(K, n) == \E m \in K : StrictlyBelow(n, m)
-Visible(c) == {n \in Nodes(c) : ~GlueIn(Cuts(c), n)}       \* the non-occluded names
-
-ORIGIN == 1
-DELEGATION == 2
-GLUE == 4
-FlagsIn(K, n) == (IF n = Apex THEN ORIGIN ELSE 0) + (IF n \in K THEN DELEGATION ELSE 0)
-                 + (IF GlueIn(K, n) THEN GLUE ELSE 0)
-FlagsOf(c, n) == FlagsIn(Cuts(c), n)
-
-(* iteration order: the names of S in canonical order *)
-Rank(S, n) == Cardinality({m \in S : NameLess(m, n)})
-OrderOf(S) == [i \in 1..Cardinality(S) |-> CHOOSE n \in S : Rank(S, n) = i - 1]
-
-(* bounds(q) over V = the non-occluded names, K = the cuts;  q in canonical form *)
-CutAbove(K, q) == {m \in K : AtOrBelow(q, m)}                \* the delegation at or above q
-LeftIn(V, q) == CHOOSE n \in V : NameLeq(n, q) /\ \A v \in V : NameLeq(v, q) => NameLeq(v, n)
-RightIn(V, q) == {n \in V : NameLess(q, n) /\ \A v \in V : NameLess(q, v) => NameLeq(n, v)}
-(* a name exists if it owns visible data or is an empty non-terminal above visible data;
-   the apex always exists *)
-ExistsIn(V, a) == a = Apex \/ \E v \in V : AtOrBelow(v, a)
-EncloserIn(V, q) == Suffix(q, MaxOf({k \in 0..Len(q) : ExistsIn(V, Suffix(q, k))}))
-
-BoundsIn(V, K, q) == [left |-> LeftIn(V, q),        \* greatest non-occluded name <= q
-                      right |-> RightIn(V, q),      \* {least non-occluded name > q}, {} if none
-                      encloser |-> EncloserIn(V, q),
-                      is_equal |-> q \in V,
-                      is_delegation |-> CutAbove(K, q) # {}]
+(* THE DERIVED STATE, defined from content alone: module BTZDerived, instantiated with
+   label-sequence names and the canonical order.  This brings in Cuts, Delegations,
+   GlueIn, Visible, FlagsIn/FlagsOf, OrderOf, BoundsIn, BoundsFast, DerivedLaws,
+   BoundsLaws, ... *)
+INSTANCE BTZDerived WITH Apex <- Apex, Less <- NameLessC, Below <- StrictlyBelow,
+                         Anc <- Suffix, Depth <- Len
 Bounds(c, q) == BoundsIn(Visible(c), Cuts(c), Canon(q))
 
 -----------------------------------------------------------------------------
@@ -145,10 +123,11 @@ DelNode(n) == InTxn /\ n # Apex /\ Did(DelNodeC(working, n))            \* txn.d
 
 Commit == /\ InTxn /\ HasApex(working)
           /\ content' = working /\ mode' = "idle" /\ ntxn' = ntxn + 1
-          /\ UNCHANGED <<working, nops>>
+          /\ working' = EmptyContent /\ nops' = 0
 Rollback == /\ InTxn
             /\ mode' = "idle" /\ ntxn' = ntxn + 1
-            /\ UNCHANGED <<content, working, nops>>
+            /\ working' = EmptyContent /\ nops' = 0
+            /\ UNCHANGED content
 
 Op == \/ \E n \in Names, ty \in OpTypes, k \in RdIds : Put(n, ty, {k}) \/ Add(n, ty, k) \/ DelRd(n, ty, k)
       \/ \E n \in Names, ty \in OpTypes : DelRds(n, ty)
@@ -163,61 +142,26 @@ Spec == Init /\ [][Next]_vars
 
 -----------------------------------------------------------------------------
 (* What TLC checks about the definitions.  Every law is stated for an arbitrary content
-   with an apex and is checked on the committed and on the working content. *)
+   with an apex. *)
 TypeOK == mode \in {"idle", "txn"} /\ (\A key \in DOMAIN content : content[key] # {})
 
 OrderLaws(U) ==          \* NameLess is a strict total order on canonical forms, ancestors first
-    /\ \A a \in U : ~NameLess(a, a)
-    /\ \A a, b \in U : Canon(a) = Canon(b) \/ NameLess(a, b) \/ NameLess(b, a)
-    /\ \A a, b \in U : ~(NameLess(a, b) /\ NameLess(b, a))
-    /\ \A a, b, d \in U : NameLess(a, b) /\ NameLess(b, d) => NameLess(a, d)
-    /\ \A a, b \in U : StrictlyBelow(Canon(a), Canon(b)) => NameLess(b, a)
-    (* a subtree is contiguous: nothing outside it sorts between a name and its descendant *)
-    /\ \A a, b, d \in U : (StrictlyBelow(Canon(d), Canon(a)) /\ NameLess(a, b) /\ NameLess(b, d))
-                             => StrictlyBelow(Canon(b), Canon(a))
+    LET lt == [p \in U \X U |-> NameLess(p[1], p[2])]      \* evaluated once per pair
+        L(a, b) == lt[<<a, b>>]
+    IN /\ \A a \in U : ~L(a, a)
+       /\ \A a, b \in U : Canon(a) = Canon(b) \/ L(a, b) \/ L(b, a)
+       /\ \A a, b \in U : ~(L(a, b) /\ L(b, a))
+       /\ \A a, b \in U : Canon(a) = Canon(b) => ~L(a, b)
+       /\ \A a, b, d \in U : L(a, b) /\ L(b, d) => L(a, d)
+       /\ \A a, b \in U : StrictlyBelow(Canon(a), Canon(b)) => L(b, a)
+       (* a subtree is contiguous: nothing outside it sorts between a name and its descendant *)
+       /\ \A a, b, d \in U : (StrictlyBelow(Canon(d), Canon(a)) /\ L(a, b) /\ L(b, d))
+                                => StrictlyBelow(Canon(b), Canon(a))
 
-DerivedLaws(c) ==
-    LET K == Cuts(c)
-        V == Visible(c)
-    IN /\ Apex \in V
-       (* the cuts are an antichain, and exactly the NS owners not beneath a cut *)
-       /\ \A m, n \in K : m # n => ~AtOrBelow(m, n)
-       /\ K = {n \in NSOwners(c) : ~GlueIn(K, n)}
-       (* ORIGIN, DELEGATION and GLUE exclude one another *)
-       /\ \A n \in Nodes(c) : FlagsIn(K, n) \in {0, ORIGIN, DELEGATION, GLUE}
-       /\ \A n \in Nodes(c) : (n \in V) <=> (FlagsIn(K, n) # GLUE)
-       (* iteration order is a permutation in strictly increasing order *)
-       /\ LET s == OrderOf(Nodes(c))
-          IN /\ {s[i] : i \in DOMAIN s} = Nodes(c)
-             /\ \A i \in 1..(Len(s) - 1) : NameLess(s[i], s[i + 1])
-
-BoundsLaws(c) ==
-    LET K == Cuts(c)
-        V == Visible(c)
-    IN \A qq \in Queries :
-        LET q == Canon(qq)
-            b == BoundsIn(V, K, q)
-        IN /\ b.left \in V /\ NameLeq(b.left, q)
-           /\ b.right \subseteq V /\ Cardinality(b.right) <= 1
-           /\ \A r \in b.right : NameLess(q, r)
-           /\ (b.right = {}) => \A v \in V : NameLeq(v, q)
-           (* adjacent: no non-occluded name strictly between left and right *)
-           /\ ~\E v \in V : NameLess(b.left, v) /\ \A r \in b.right : NameLess(v, r)
-           (* the encloser is the longest existing ancestor-or-self *)
-           /\ AtOrBelow(q, b.encloser) /\ ExistsIn(V, b.encloser)
-           /\ \A k \in (Len(b.encloser) + 1)..Len(q) : ~ExistsIn(V, Suffix(q, k))
-           /\ (b.is_equal <=> b.left = q)
-           /\ (b.is_equal => b.encloser = q)
-           (* at or below a delegation: left bound and encloser are the delegation itself *)
-           /\ b.is_delegation => /\ b.left \in K /\ AtOrBelow(q, b.left)
-                                 /\ b.encloser = b.left
-           /\ (b.is_delegation <=> (b.left \in K /\ AtOrBelow(q, b.left)))
-           (* neighbour lemma: the encloser is the longest ancestor shared with a neighbour *)
-           /\ Len(b.encloser) = MaxOf({Common(q, b.left)} \cup {Common(q, r) : r \in b.right})
-
-Laws(c) == HasApex(c) => (DerivedLaws(c) /\ BoundsLaws(c))
-CommittedLaws == Laws(content)
-WorkingLaws == Laws(working)
+Laws(c) == HasApex(c) => (DerivedLaws(c) /\ BoundsLaws(c, {Canon(q) : q \in Queries}))
+(* every working content that can be committed becomes a committed content, so it is
+   enough (and much cheaper) to evaluate the laws between transactions *)
+CommittedLaws == (mode = "idle") => Laws(content)
 
 (* a rollback or a failed transaction never changes the committed derived state *)
 OnlyCommitChanges == [][content' # content => (mode' = "idle")]_vars
